@@ -71,3 +71,7 @@ def ofReal (x : K) : Cx K := ⟨x, 0⟩
 def I : Cx K := ⟨0, 1⟩
 end Cx
 end Ndt
+
+namespace Ndt
+instance : NatCast Float := ⟨Float.ofNat⟩
+end Ndt
